@@ -5,7 +5,7 @@ here="$(cd "$(dirname "${BASH_SOURCE[0]}")/.." && pwd)"
 cd "$here"
 if [ -n "$VP_RUN_REPO" ]; then export PYTHONPATH="$VP_RUN_REPO" VERIF_REPO="$VP_RUN_REPO"; fi
 export VERIF_EVIDENCE_DIR="$here/evidence_thorough" VERIF_REPLAY_DIR="$here/replays_thorough"
-for id in ${@:-C27 C26 C05 C15 C17 C16 C18 C25 C23 C24 C04 C06 C30 C29 C19 C07 C08 C10 C11 C12 C13 C14 C21 C22 C28 C03 C01 C02 C09 C20}; do
+for id in ${@:-C30 C29 C19 C07 C08 C10 C11 C12 C13 C14 C21 C22 C09 C20 C04 C06 C25 C23 C24 C28 C03 C02 C01 C18}; do
   start=$(date +%s)
   out=$(./vcheck $id --tier thorough 2>&1); rc=$?
   echo "== $id rc=$rc t=$(( $(date +%s) - start ))s"
